@@ -22,7 +22,7 @@ pub static URING: Scenario = Scenario {
     chunk: 1,
 };
 
-const CALLS: [&str; 6] = ["read", "write", "recv", "send", "pread", "pwrite"];
+const CALLS: [&str; 7] = ["read", "write", "recv", "send", "pread", "pwrite", "sendto"];
 const ERRNOS: [i32; 5] = [libc::EAGAIN, libc::ECANCELED, libc::EINTR, libc::EIO, libc::ECONNRESET];
 
 /// What the simulated kernel answers for a submission whose buffer length is `len`.
@@ -50,12 +50,18 @@ fn gen_uring(g: &mut Rng, _tier: Tier) -> J {
     }
     let mut calls = Vec::new();
     for l in &lens {
-        calls.push(obj! {
+        let mut c = obj! {
             "call" => *g.pick(&CALLS),
             "len" => *l,
             "caller" => if g.chance(2, 3) { "coroutine" } else { "thread" },
             "start_us" => g.below(20_000),
-        });
+        };
+        if g.chance(1, 3) {
+            // the same caller goes straight on with a second call (lengths 300.. are reserved for these)
+            c.set("then_call", (*g.pick(&CALLS)).into());
+            c.set("then_len", (300 + *l).into());
+        }
+        calls.push(c);
     }
     let loops = g.range(1, 2);
     let mut sim = gen_sim(g, SimOpts { max_points: 4_000_000, max_sim_ms: 30_000, ..SimOpts::default() });
@@ -87,6 +93,7 @@ fn do_uring_call(call: &str, fd: c_int, len: usize) -> (isize, i32) {
         "pread" => hk::pread(None, fd, p, len, 0),
         "write" => hk::write(None, fd, p.cast_const(), len),
         "send" => hk::send(None, fd, p.cast_const(), len, 0),
+        "sendto" => hk::sendto(None, fd, p.cast_const(), len, 0, std::ptr::null(), 0),
         _ => hk::pwrite(None, fd, p.cast_const(), len, 0),
     };
     let e = unsafe { *libc::__errno_location() };
@@ -99,7 +106,8 @@ fn body_uring(plan: &J) {
     init_runtime(loops, 0, 65536);
     let calls: Vec<J> = plan.ga("calls").to_vec();
     let n = calls.len();
-    let recs: Arc<StdMutex<Vec<CallRec>>> = Arc::new(StdMutex::new(vec![CallRec::default(); n]));
+    // slot i: the call itself; slot n + i: the call the same caller makes right afterwards (if any)
+    let recs: Arc<StdMutex<Vec<CallRec>>> = Arc::new(StdMutex::new(vec![CallRec::default(); 2 * n]));
     let mut socks = Vec::new();
     let mut joins = Vec::new();
     let mut threads = Vec::new();
@@ -112,14 +120,31 @@ fn body_uring(plan: &J) {
             r[i].call = call.clone();
             r[i].len = len as u32;
         }
+        let then: Option<(String, usize)> = c.get("then_call").map(|t| (t.s().to_string(), c.gus("then_len")));
+        if let Some((tc, tl)) = &then {
+            let mut r = recs.lock().unwrap_or_else(|e| e.into_inner());
+            r[n + i].call = tc.clone();
+            r[n + i].len = *tl as u32;
+            probe("uring.follow-up-call");
+        }
         let rc = recs.clone();
         let work = move || {
             rc.lock().unwrap_or_else(|e| e.into_inner())[i].began = Some(now());
             let (r, e) = do_uring_call(&call, fd, len);
-            let mut g = rc.lock().unwrap_or_else(|e| e.into_inner());
-            g[i].ended = Some(now());
-            g[i].ret = r;
-            g[i].errno = e;
+            {
+                let mut g = rc.lock().unwrap_or_else(|e| e.into_inner());
+                g[i].ended = Some(now());
+                g[i].ret = r;
+                g[i].errno = e;
+            }
+            if let Some((tc, tl)) = then {
+                rc.lock().unwrap_or_else(|e| e.into_inner())[n + i].began = Some(now());
+                let (r, e) = do_uring_call(&tc, fd, tl);
+                let mut g = rc.lock().unwrap_or_else(|e| e.into_inner());
+                g[n + i].ended = Some(now());
+                g[n + i].ret = r;
+                g[n + i].errno = e;
+            }
         };
         if c.gs("caller") == "coroutine" {
             joins.push(EventLoops::submit_task(
@@ -144,15 +169,18 @@ fn body_uring(plan: &J) {
     if n > 1 {
         probe("uring.concurrent");
     }
-    // everything must come back: longest delay 29 ms + start 20 ms + a few slices
-    vstd::thread::sleep(Duration::from_millis(120));
+    // everything must come back: two calls of at most 29 ms each + start 20 ms + a few slices
+    vstd::thread::sleep(Duration::from_millis(180));
     let snap = recs.lock().unwrap_or_else(|e| e.into_inner()).clone();
     for (i, c) in snap.iter().enumerate() {
+        if c.call.is_empty() {
+            continue; // no follow-up call in this slot
+        }
         let (want, delay) = answer(c.len);
         let Some(end) = c.ended else {
             fail(
                 "uring-call-blocked",
-                format!("hooked {}(len {}) through io_uring: its completion was due {} us after submission, the call has not returned 120 ms into the run (began {:?})", c.call, c.len, delay / 1000, c.began.map(|b| b % 1_000_000_000)),
+                format!("hooked {}(len {}) through io_uring: its completion was due {} us after submission, the call has not returned 180 ms into the run (began {:?})", c.call, c.len, delay / 1000, c.began.map(|b| b % 1_000_000_000)),
             );
         };
         let _ = end;
